@@ -211,6 +211,21 @@ impl<const N: usize> Events<N> {
     }
 }
 
+/// Hook for the out-of-tree verification harness (property C14). Compiled only
+/// with the `verif` feature; read-only, adds no behaviour.
+#[cfg(feature = "verif")]
+impl<const N: usize> Events<N> {
+    /// Call `f` with the number of every event currently stored in the queue,
+    /// in the order in which the queue is iterated when reporting.
+    pub fn verif_stored_event_numbers(&self, f: &mut dyn FnMut(EventNumber)) {
+        self.fetch(|events| {
+            for event in events {
+                f(event.event_number);
+            }
+        })
+    }
+}
+
 /// The inner state of the events queue, protected by a mutex in the outer Events struct. This is where all the actual logic lives.
 ///
 /// It's modeled after the tiered ring buffer design used in the C++ matter SDK:
